@@ -460,6 +460,8 @@ def apply_scale(spec, pat):
         p["scale"] = p["scale"] * float(pow2(ka + kp))
         spec["beta"] = spec["beta"] * float(pow2(2 * ka))
     if spec["kind"] == "ugla":
+        if spec.get("init_other"):
+            spec["init_other"] = [v * a for v in spec["init_other"]]
         spec["xcurs"] = [[v * a for v in xc] for xc in spec["xcurs"]]      # RTO: build_rto puts the states at the posterior's scale
     return spec
 
@@ -631,6 +633,8 @@ def make_sampler(cuqi, spec, target, xcur):
     x0 = np.array(xcur, dtype=float)
     if spec.get("x0_default") and not np.any(x0):
         x0 = None                                   # optional argument left out: both interfaces default to zeros
+    elif spec.get("init_other") and spec["iface"] == "exp":
+        x0 = x0 + np.array(spec["init_other"], dtype=float)     # the chain was STARTED elsewhere: the current state is set before each transition
     cb = Recorder()
     if kind == "rto":
         if spec["iface"] == "exp":
@@ -796,6 +800,26 @@ def observe(cuqi, spec, target=None, sampler=None):
                 xe = [v * sx * fac for v in spec["xdir"]]
                 rec_draw("extreme%+d" % k, xe, estar2)
                 draws[-1]["extreme"] = True
+        if spec["kind"] == "ugla":
+            # two consecutive transitions inside ONE call: the local Gaussian of the second must be the one at the state
+            # the first arrived at (e = 0 both times) -- compared with a separate single transition from that state
+            zero = [0.0] * p
+            with ScriptedRandom(script=scripted(zero)) as sr2, quiet():
+                rng_ = getattr(sampler, "rng", None)
+                if isinstance(rng_, ScriptRng):
+                    rng_.e, rng_.log = zero, []
+                if spec["iface"] == "exp":
+                    sampler.current_point = np.array(spec["xcurs"][0], dtype=float)
+                    nb = len(sampler.get_samples().samples.T) if sampler._samples else 0
+                    sampler.sample(2)
+                    smp = sampler.get_samples().samples
+                    s1, s2 = np.array(smp[:, -2]), np.array(smp[:, -1])
+                else:
+                    sampler.x0 = np.array(spec["xcurs"][0], dtype=float)
+                    S3 = sampler.sample(3, 0)
+                    s1, s2 = np.array(S3.samples[:, 1]), np.array(S3.samples[:, 2])
+            xs2, rec2, _ = one_draw(cuqi, spec, sampler, s1.tolist(), zero, cap)
+            obs["chain2"] = bool(np.array_equal(s1, np.array(draws[0]["x"])) and np.array_equal(s2, xs2))
         obs["draws"] = draws
         obs["p"] = p
         obs["inputs_modified"] = keep_alive_violations()
@@ -983,6 +1007,8 @@ def gen_rto_spec(rng, idx, iface, target, mkind, noise_cells, prior_cell, shape_
         liks[0]["b"] = [0.0] * len(liks[0]["b"])
     if idx % 8 == 6 and "mean" in prior:
         prior["mean"] = [0.0] * len(prior["mean"])
+    if prior["kind"] == "joint" and idx % 2 == 0:
+        prior["blocks"][-1]["mean"] = [0.0] * n              # a zero-mean block whose sqrtprec has fewer rows than n
     spec = {"kind": "rto", "iface": iface, "target": target, "mkind": mkind, "n": n, "liks": liks, "prior": prior,
             "xcurs": [[0.0] * n, rand_dyadic_vec(rng, n), [float(rng.randint(-30, 30)) for _ in range(n)]],
             "shape": shape_kind, "idx": idx}
@@ -1217,6 +1243,8 @@ def gen_ugla_spec(rng, cell):
         g["decl"] = DECLS_2D[i % 10]
     elif g["shape"] == "vector":
         g["decl"] = DECLS_1D[i % 6]
+    if i % 2 == 1 and not spec.get("x0_default"):
+        spec["init_other"] = [float(rng.randint(1, 3)) * (max(abs(v) for v in xk) or 1.0) for _ in range(n)]
     spec["xk_class"] = xkk
     spec["cell"] = cell_name(spec) + "%s/xk=%s/noise=%s-%s/units=%s" % ("/2d" if two_d else "", xkk, f, s, patname)
     return apply_scale(spec, PATTERN_BY_NAME[patname])
@@ -1397,6 +1425,10 @@ def ugla_cases(spec, obs, fail, fixed):
     add("forms", "check_forms %s [(%s, %s, %s, %s)]" % ("tol6" if l["noise"].get("decl") == "f32" else "tol9", COQF[l["noise"]["form"]], cnat(len(l["b"])),
                                                           c_gval(l["noise"]), qm(obs["S_liks"][0])))
     side_conditions(spec, obs, cases, cell)
+    if "chain2" in obs:
+        cases.append(Case(expr=cbool(obs["chain2"]), meta={"spec": spec, "stage": "chain"}, cell=cell, kind="DECISION",
+                          impl_fail=None if obs["chain2"] else "two transitions in one call: the second is not the transition from the state the first arrived at",
+                          signature="" if obs["chain2"] else signature_of(spec, "chain")))
     two_d = bool(pr.get("two_d"))
     add("operator-model", "check_lmrf_D %s %s %s %s" % (cbool(two_d), {"zero": "BcZero", "neumann": "BcNeumann", "periodic": "BcPeriodic"}[pr["bc"]],
                                                          cnat(int(round(n ** 0.5)) if two_d else n), qm(obs["D"])))
